@@ -43,7 +43,20 @@ def C01(tier, seed):
 
 
 def C02(tier, seed):
-    return _step("C02", tier, seed, R.USER)
+    from harness import history
+    from .core import Run
+
+    n = 6 if tier == "quick" else 8
+    runs = [Run(f"history_algebra:len<={n}", history.harness, dict(length=n), history.replay, ("completed",),
+                f"every sequence over {{edit, undo, redo}} of length {n} (prefixes cover the shorter ones) on the real "
+                f"ActionHistory / Tracks.undo / Tracks.redo, abstract exactly-invertible edits with symbolic payloads")]
+    runs += R.step_runs("C02", tier, R.USER)
+    if tier != "quick":
+        runs += R.seg_runs("C02", tier, [("paint", 2, (2, 1, 2), {})])
+    return run_property("C02", tier, runs, explanation=R.EXPL, seed=seed, assumptions=R.STEP_ASSUME + [
+        "lemma (a): ActionHistory calls nothing but inverse(); behaviour on free generators transfers to every "
+        "exactly-invertible action (C01); lemma (b): one successful top-level user action = exactly one history "
+        "entry whose inverse is the C01-checked one"])
 
 
 def C19(tier, seed):
@@ -260,6 +273,10 @@ def replay_file(prop, path):
         v = json.load(f)
     run = v.get("run", "")
     fn = step_replay.replay
+    if run.startswith("history_algebra"):
+        from harness import history
+
+        fn = history.replay
     if run.startswith(("seg:", "enable:")):
         fn = seg_replay.replay
     elif run.startswith("unique"):
